@@ -87,6 +87,11 @@ static Family life_udp(const std::string &tier)
     f.cfgs.push_back(c);
   }
   {
+    Cfg c       = cfg("2srv-1try-fd-numbers-reused", 2, 1, 0);
+    c.reuse_fds = true;
+    f.cfgs.push_back(c);
+  }
+  {
     // non-initial start: two requests already outstanding on one UDP socket
     Cfg c      = cfg("1srv-2tries-from-two-outstanding", 1, 2, 0);
     c.preamble = { { EV_REQ, 0, 0 }, { EV_REQ, 1, 0 } };
@@ -112,6 +117,13 @@ static Family life_reentrant(const std::string &tier)
   Family f   = life_udp(tier);
   f.name     = "life-reentrant";
   f.cfgs.resize(2);
+  {
+    // descriptor numbers are handed out like POSIX does (lowest free one): a connection closed and replaced inside a
+    // callback comes back under the same number
+    Cfg c       = cfg("1srv-2tries-fd-numbers-reused", 1, 2, 0);
+    c.reuse_fds = true;
+    f.cfgs.push_back(c);
+  }
   {
     // non-initial start: a request whose callback re-enters the library and a plain one are outstanding together
     Cfg c      = cfg("1srv-2tries-from-reentrant-and-plain", 1, 2, 0);
@@ -741,7 +753,22 @@ const Family *find_family(const std::string &name, const std::string &tier)
   else if (name == "retry-long") f = retry_long_family(tier);
   else if (name == "adversary") f = adversary_family(tier);
   else if (name == "cache") f = cache_family(tier);
-  else if (name == "cache-deep") {
+  else if (name == "retry-gai") {
+    // the retry family's oracles on a dual-family getaddrinfo (the lookup marks the second question 'no retries' once
+    // the first is answered): two small configurations, one request
+    f      = retry_family(tier);
+    f.name = "retry-gai";
+    std::vector<Cfg> keep;
+    for (auto &c : f.cfgs)
+      if (c.preamble.empty() && c.tries == 2 && (c.flags == 0) && c.maxtimeout_ms == 0 && c.timeout_ms == 2000 && !c.rotate) keep.push_back(c);
+    f.cfgs     = keep;
+    f.req_menu = { 4 };
+    f.replies  = { RK_DATA, RK_TC, RK_SERVFAIL, RK_NODATA };
+    f.faults   = {};
+    f.setservers = {};
+    f.evmask   = EVBIT(EV_REQ) | EVBIT(EV_REPLY) | EVBIT(EV_IO) | EVBIT(EV_TIMER);
+    f.max_req  = 1;
+  } else if (name == "cache-deep") {
     // the quick alphabet one level deeper (the thorough alphabet does not complete at that depth)
     f      = cache_family("quick");
     f.name = "cache-deep";
